@@ -29,7 +29,8 @@ THEOREMS = ([f'Gnpy.Round.{t}' for t in ('fmt_error_bound', 'fmt_fixpoint', 'fmt
                 'degree_roundtrip', 'design_band_roundtrip', 'loss_coef_roundtrip', 'raman_coef_roundtrip',
                 'degree_to_yang_idempotent', 'design_band_to_yang_idempotent', 'range_to_yang_idempotent',
                 'loss_coef_to_yang_idempotent', 'design_band_to_legacy_idempotent', 'loss_coef_to_legacy_idempotent',
-                'range_to_legacy_idempotent',
+                'range_to_legacy_idempotent', 'to_yang_idempotent_of_normal', 'to_yang_idempotent', 'to_legacy_idempotent',
+                'roundtrip_structure_partial',
                 'delta_power_range_roundtrip_witness', 'delta_power_range_fails_old', 'raman_efficiency_back_spelling',
                 'raman_efficiency_roundtrip_witness', 'raman_efficiency_fails_old',
                 'alias_entries', 'alias_fails_pre_fix')])
@@ -54,7 +55,15 @@ MODEL_SCOPE = ('modelled: convert_none_to_empty, convert_empty_to_none, convert_
                'yang_to_legacy, PRECISION_DICT, other_name expansion of Edfa/Transceiver entries and of transceiver modes. '
                'not modelled: libyang validation (oracle), the gnpy-api envelope, Python repr for >= 17 digits (string taken '
                'from the harness and checked to parse back), the loaders themselves (compared object against object)')
-PARTIAL = ['fmt for >= 17 declared digits uses Python repr: the model receives that text and only checks that it parses '
+PARTIAL = ['roundtrip_structure_partial: yang_to_legacy(legacy_to_yang d) ~ d (same members under every key, numbers within half a '
+           'unit of the declared digit) is proved per structure (degree_roundtrip, design_band_roundtrip, loss_coef_roundtrip, '
+           'raman_coef_roundtrip, range_roundtrip, fmt_error_bound/fmt_fixpoint) and on five witness documents at document '
+           'level; missing lemmas: forEachIn_congr (lifting a per-params lookup equality through onParams/forEachIn/onKey) and '
+           'convertBack_convertDict_leaf (parseFloatBits (fmtBits b d) = nearest double of the rounded decimal)',
+           'to_yang_idempotent / to_legacy_idempotent are stated under the decidable predicates wfDoc / wfLegacyDoc (the '
+           'conversion result is in YANG / legacy normal form, no bare null / [null], no binary float / numbers already numbers); '
+           'that every document libyang accepts satisfies them is checked by the harness on every case (op c18.wf), not proved',
+           'fmt for >= 17 declared digits uses Python repr: the model receives that text and only checks that it parses '
            'back to the same double (fmt_repr_partial)']
 
 # ---------------------------------------------------------------------------------------------------------------------
@@ -1246,6 +1255,11 @@ def run_doc(case, drv):
     if lerr is not None:
         res.fail(f'accepted document cannot be converted back: yang_to_legacy raises {lerr}')
         return res
+    # --- the decidable hypotheses of the document-level theorems (to_yang_idempotent, to_legacy_idempotent) hold for this
+    #     document and for the legacy document the implementation returned
+    wf = drv.ask('c18.wf', doc=to_wire(d), legacy=to_wire(l), reprs=reprs_of(d) + reprs_of(l))
+    res.cmp_exact('wfDoc(document)  [hypothesis of to_yang_idempotent]', True, wf['yang'])
+    res.cmp_exact('wfLegacyDoc(yang_to_legacy result)  [hypothesis of to_legacy_idempotent]', True, wf['legacy'])
     # --- second passes (idempotence), implementation and model
     y2, y2err = _impl(legacy_to_yang, y)
     y2msg = LAST_MSG[0]
